@@ -41,8 +41,7 @@ def run(ctx):
     ctx.log("graph: %d states, %d edges, covered by %d paths" % (len(g.ids), g.nedges, len(paths)))
     for k, p in enumerate(paths):
         if ctx.quick:
-            add(p, "stub", FRAGS[k % 3], "graph")
-            add(p, "sm", FRAGS[(k + 1) % 3], "graph")
+            add(p, "sm" if k % 2 and not rtmp_only(p) else "stub", FRAGS[k % 3], "graph")
         else:
             for mode in ("stub", "sm"):
                 for fr in FRAGS:
@@ -71,8 +70,11 @@ def run(ctx):
     for k, s in enumerate(E.emitted(res, "@S@")):
         ntyp += 1
         msgs = PRE[s["r"]] + list(s["h"]) + [M("ack", "", "4")]
-        add(msgs, "stub", FRAGS[k % 3], "types")
-        add(msgs, "sm", FRAGS[k % 3], "types")
+        if ctx.quick:
+            add(msgs, "sm" if k % 2 and not rtmp_only(msgs) else "stub", FRAGS[k % 3], "types")
+        else:
+            add(msgs, "stub", FRAGS[k % 3], "types")
+            add(msgs, "sm", FRAGS[k % 3], "types")
     ctx.log("types: %d (type id, payload, role) cases; %d scenarios in total" % (ntyp, len(scen)))
 
     sp, tp = ctx.path("scen.ndjson"), ctx.path("trace.ndjson")
